@@ -160,6 +160,125 @@ def contrast_leg(ctx: Ctx, maxn: int):
             ctx.violation({k: b[k] for k in ("formula", "fid", "path", "output", "materializer", "full_rank", "na", "cluster")}, b, kind="replay")
 
 
+# ------------------------------------------------------------------ registry / dispatch histories (Registry.tla)
+class T1:  # data objects of three distinguishable input types
+    pass
+
+
+class T2:
+    pass
+
+
+class T3:
+    pass
+
+
+_TYPES = {"T1": T1, "T2": T2, "T3": T3}
+_POOL = {1: ("alpha", ["T1"], ["o1", "o2"], 100, []), 2: ("beta", ["T1", "T2"], ["o1"], 100, []), 3: ("gamma", [], ["o2"], 50, ["T1", "T2", "T3"]),
+         4: ("alpha", ["T2"], ["o2"], 200, []), 5: ("delta", ["T1"], ["o2"], 150, ["T3"]), 6: ("", ["T3"], ["o1"], 300, ["T3"]),
+         7: ("eps", ["T2"], ["o1", "o2"], 100, ["T3"])}
+
+
+def _tname(t):
+    c = _TYPES[t]
+    return f"{c.__module__}.{c.__qualname__}"
+
+
+def replay_registry(case):
+    from interface_meta import override
+
+    from formulaic.errors import FormulaMaterializerNotFoundError
+    from formulaic.materializers.base import FormulaMaterializer, FormulaMaterializerMeta as Meta
+
+    saved_names, saved_inputs = dict(Meta.REGISTERED_NAMES), {k: list(v) for k, v in Meta.REGISTERED_INPUTS.items()}
+    bad = []
+    try:
+        Meta.REGISTERED_NAMES.clear()
+        Meta.REGISTERED_INPUTS.clear()
+        for n, p in enumerate(case["hist"]):
+            name, ins, outs, prec, sup = _POOL[p]
+            supset = tuple(_TYPES[t] for t in sup)
+            ns = {"REGISTER_INPUTS": tuple(_tname(t) for t in ins), "REGISTER_OUTPUTS": tuple(outs), "REGISTER_PRECEDENCE": prec, "_vid": p,
+                  "SUPPORTS_INPUT": override(classmethod(lambda cls, data, _s=supset: isinstance(data, _s)))}
+            if name:
+                ns["REGISTER_NAME"] = name
+            type(FormulaMaterializer)(f"M{p}_{n}", (FormulaMaterializer,), ns)
+        for q in case["q"]:
+            if not q["det"]:
+                continue
+            try:
+                got = FormulaMaterializer.for_data(_TYPES[q["t"]](), output=q["o"] or None)._vid
+            except FormulaMaterializerNotFoundError:
+                got = 0
+            if got != q["r"]:
+                bad.append({"why": "for_data", "type": q["t"], "output": q["o"], "observed": got, "expected": q["r"]})
+        for nm, exp in case["byname"].items():
+            try:
+                got = FormulaMaterializer.for_materializer(nm)._vid
+            except FormulaMaterializerNotFoundError:
+                got = 0
+            if got != exp:
+                bad.append({"why": "for_materializer", "name": nm, "observed": got, "expected": exp})
+    except Exception as e:  # noqa
+        bad.append({"why": "exception", "observed": type(e).__name__ + ": " + str(e)[:200]})
+    finally:
+        Meta.REGISTERED_NAMES.clear()
+        Meta.REGISTERED_NAMES.update(saved_names)
+        Meta.REGISTERED_INPUTS.clear()
+        Meta.REGISTERED_INPUTS.update(saved_inputs)
+    return [{"registry_history": case["hist"], **b} for b in bad]
+
+
+def real_dispatch(ctx: Ctx):
+    """the shipped registry: input type x requested output -> materializer, as Registry.tla prescribes for the shipped declarations"""
+    import numpy
+    import pandas
+    import pyarrow
+
+    from formulaic.materializers import FormulaMaterializer, NarwhalsMaterializer, PandasMaterializer
+
+    df = pandas.DataFrame({"x": [1.0, 2.0]})
+    expect = [(df, None, PandasMaterializer), (df, "pandas", PandasMaterializer), (df, "sparse", PandasMaterializer), (df, "narwhals", NarwhalsMaterializer),
+              (pyarrow.Table.from_pandas(df), None, NarwhalsMaterializer), (pyarrow.Table.from_pandas(df), "numpy", NarwhalsMaterializer),
+              (numpy.rec.fromarrays([numpy.array([1.0, 2.0])], names=["x"]), None, PandasMaterializer)]
+    for data, out, cls in expect:
+        ctx.traces += 1
+        ctx.evaluations += 1
+        try:
+            got = FormulaMaterializer.for_data(data, output=out)
+        except Exception as e:  # noqa
+            got = type(e)
+        if got is not cls:
+            ctx.violation({"formula": "", "fid": type(data).__name__, "path": "for_data", "output": out, "materializer": cls.__name__, "full_rank": True, "na": "drop",
+                           "cluster": False}, {"why": "shipped dispatch", "observed": getattr(got, "__name__", str(got)), "expected": cls.__name__}, kind="replay")
+
+
+def registry_leg(ctx: Ctx, maxops: int):
+    from ..tlc import MachineryError, read_emitted, run_tlc, workdir
+
+    out = workdir("c05") / "registry.ndjson"
+    out.unlink(missing_ok=True)
+    r = run_tlc("MC_Registry", f"SPECIFICATION Spec\nCONSTANTS\n  MaxOps = {maxops}\n  Emit = TRUE\nINVARIANT Laws\nPROPERTY Monotone\nINVARIANT EmitCase\n", tag="c05r",
+                env={"OUT_FILE": str(out)}, timeout=3000)
+    if r.violated:
+        ctx.model_violation(r, "MC_Registry")
+    ctx.add_tlc(r, f"materializer registry: every sequence of <= {maxops} class definitions; sorted input lists, dispatch sound / complete / by priority, monotone")
+    cases = read_emitted(out)
+    out.unlink()
+    if len(cases) != r.distinct:
+        raise MachineryError(f"emission incomplete: {len(cases)} of {r.distinct}")
+    res = pmap("harness.props.c05", "replay_registry", cases, chunk=50)
+    for c, bad in zip(cases, res):
+        ctx.traces += 1
+        ctx.evaluations += len(c["q"]) + len(c["byname"])
+        if len(c["hist"]) >= 2:
+            ctx.nontrivial.add(jhash(["registry", c["hist"]]))
+        for b in bad:
+            ctx.violation({"formula": "", "fid": "registry", "path": "for_data", "output": b.get("output"), "materializer": str(c["hist"]), "full_rank": True, "na": "drop",
+                           "cluster": False}, b, kind="replay")
+    real_dispatch(ctx)
+
+
 def run(ctx: Ctx) -> None:
     global FRAMES, PER_CASE
     ctx.rule = ("the (formula, frame, options) enumeration of MC_Materialize; per case 6 (quick) or all 36 (thorough, 1/4 slice) combinations of entry "
@@ -186,6 +305,7 @@ def run(ctx: Ctx) -> None:
                     "executed_on": "entry points x outputs x materializers"})
     ctx.exhaustive = True
     contrast_leg(ctx, 4 if ctx.quick else 6)
+    registry_leg(ctx, 4 if ctx.quick else 5)
     # leg T: random cases on random (entry point, output, materializer) combinations, validated by TLC
     from .. import mattrace
 
